@@ -107,7 +107,7 @@ def streamDigest (r : Option (List (Nat × Key × Nat))) : String :=
 
 def searchAnswer {σ} (A : Automaton σ) (m : Assoc Nat) (d : Dict Nat) (lo hi : Bound) : String :=
   let spec := specItems m (fun k => matchLo lo k && matchHi hi k && A.accepts k)
-  s!"{digest spec}~{digest (d.search A lo hi)}"
+  s!"{digest spec}~{digest (d.search A lo hi)}~{digest (d.searchDelta A lo hi)}"
 
 /-- one operation on spec `m` and block model `d` -/
 def answer (tables : Array (Table × Nat)) (m : Assoc Nat) (d : Dict Nat) (op : String) : String :=
